@@ -123,13 +123,23 @@ class Machine:
         self.stores = []
         self.loads = []
 
+    def owned(self, addr, n, store):
+        """the access lies in the 40-byte state or in the function's own frame: at or above the stack
+        pointer AT THE TIME of the access (memory below it belongs to interrupt and signal handlers) and
+        below the stack pointer at entry (loads may also reach the caller-built argument area)"""
+        if self.STATE <= addr and addr + n <= self.STATE + 40: return True
+        top = self.STACK + (self.caller_area if not store else 0)
+        return self.cur_sp() <= addr and addr + n <= top
+
     def ld(self, addr, n, big=False):
         self.loads.append((addr, n))
+        if not self.setting_up and not self.owned(addr, n, False): self.bad_access.append(('load', addr, n))
         b = [self.mem.get(addr + i, 0) for i in range(n)]
         return int.from_bytes(bytes(b), 'big' if big else 'little')
 
     def st(self, addr, n, val, big=False):
         self.stores.append((addr, n))
+        if not self.setting_up and not self.owned(addr, n, True): self.bad_access.append(('store', addr, n))
         for i, x in enumerate((val & ((1 << (8 * n)) - 1)).to_bytes(n, 'big' if big else 'little')):
             self.mem[addr + i] = x
 
@@ -173,7 +183,9 @@ class Machine:
         """returns dict(out=bytes, regs=0/1, sp=0/1, guard=0/1, steps=n)"""
         self.reset_mem()
         self.put_state(st)
+        self.bad_access = []; self.setting_up = True
         self.setup(first_round, dirty)
+        self.setting_up = False
         pc = self.labels['ascon_permute']
         steps = 0
         self.done = False
@@ -186,15 +198,9 @@ class Machine:
             steps += 1
             if steps > 200000:
                 raise AsmError('no termination')
-        lo = self.frame_low
-        guard = 1
-        for addr, n in self.stores:
-            in_state = self.STATE <= addr and addr + n <= self.STATE + 40
-            in_frame = lo <= addr and addr + n <= self.STACK + self.caller_area
-            if not (in_state or in_frame):
-                guard = 0
+        guard = 0 if self.bad_access else 1
         regs, sp = self.check_abi()
-        return dict(out=self.get_state(), regs=regs, sp=sp, guard=guard, steps=steps)
+        return dict(out=self.get_state(), regs=regs, sp=sp, guard=guard, steps=steps, bad=self.bad_access[:4])
 
     def target(self, label):
         if label not in self.labels:
@@ -230,6 +236,8 @@ class RiscV(Machine):
         self.x[1] = 0xdead0000
         self.saved0 = list(self.x)
         self.frame_low = self.STACK - 256
+
+    def cur_sp(self): return self.x[2]
 
     def rd(self, n):
         i = self.reg(n)
@@ -313,6 +321,8 @@ class A64(Machine):
         self.saved0 = list(self.x)
         self.z = False
         self.frame_low = self.STACK - 256
+
+    def cur_sp(self): return self.sp
 
     def rr(self, n):
         n = n.strip().lower()
@@ -407,6 +417,8 @@ class Arm32(Machine):
         self.saved0 = list(self.r)
         self.z = False; self.c = False
         self.frame_low = self.STACK - 256
+
+    def cur_sp(self): return self.r[13]
 
     def ri(self, n):
         n = n.strip().lower()
@@ -556,6 +568,8 @@ class M68k(Machine):
         self.z = False
         self.frame_low = self.STACK - 512
 
+    def cur_sp(self): return self.a_[7]
+
     def get(self, s, size=4):
         s = s.strip()
         if s.startswith('#'): return imm(s) & M32
@@ -640,6 +654,8 @@ class Xtensa(Machine):
         self.frame_low = self.STACK - 256
         self.windowed = '-D__XTENSA_WINDOWED_ABI__' in self.a['defs']
         self.entry = None
+
+    def cur_sp(self): return self.ar[1]
 
     def ri(self, n):
         n = n.strip().lower()
